@@ -89,12 +89,18 @@ def _marker_template(origin: str, name: str) -> str:
     return body
 
 
-def plant_dir(path: str, origin: str, names: typing.List[str], distractors: typing.List[str]) -> None:
+def plant_dir(path: str, origin: str, names: typing.List[str], distractors: typing.List[str], shadows: typing.Sequence[str] = ()) -> None:
     os.makedirs(os.path.join(path, "inc"), exist_ok=True)
     os.makedirs(os.path.join(path, "zzz", "deep"), exist_ok=True)
     for n in names:
         with open(os.path.join(path, n + ".j2"), "w", encoding="utf-8") as f:
             f.write(_marker_template(origin, n))
+        # a partial of the SAME file name in sub-directories (names are paths: these are other templates, never the
+        # template of the class), in directories sorting before and after the file
+        for sd in shadows:
+            os.makedirs(os.path.join(path, sd), exist_ok=True)
+            with open(os.path.join(path, sd, n + ".j2"), "w", encoding="utf-8") as f:
+                f.write("SHADOW %s/%s/%s\n" % (origin, sd, n))
     for n in distractors:
         with open(os.path.join(path, n + ".j2"), "w", encoding="utf-8") as f:
             f.write("DISTRACTOR %s/%s\n" % (origin, n))
@@ -221,10 +227,12 @@ def run_case(case: dict, ctx: dict) -> dict:
             "d1": d1,
             "d2": d2,
             "distractors": r.subset(DISTRACTORS, 1, 3),
+            "shadows": r.choice([[], [], ["parts"], ["Parts", "zz"], ["parts/deeper", "0old"]]),
             "enum_seed": r.below(1 << 30) + 1,
             "lookups_seed": r.below(1 << 30),
             "additions": adds,
             "instance_tests": r.chance(1, 4),
+            "conventional_names": r.chance(1, 2),
             "root": r.choice(list(roots)),
         }
     plan.setdefault("root", sorted(roots)[0])
@@ -251,7 +259,7 @@ def run_case(case: dict, ctx: dict) -> dict:
     for origin, names in (("d1", plan.get("d1")), ("d2", plan.get("d2"))):
         if names is not None:
             p = os.path.join(world.tpl_dir, origin)
-            plant_dir(p, origin, list(names), plan["distractors"] if origin == "d1" else [])
+            plant_dir(p, origin, list(names), plan["distractors"] if origin == "d1" else [], plan.get("shadows") or ())
             dirs.append(p)
     user_names = None  # type: typing.Optional[typing.Dict[str, str]]
     if dirs:
@@ -290,13 +298,18 @@ def run_case(case: dict, ctx: dict) -> dict:
         sentinels = {}
         add_kw = {"additional_filters": {}, "additional_tests": {}, "additional_globals": {}}  # type: typing.Dict[str, typing.Dict[str, typing.Any]]
         for kind, name in adds:
-            def make(tag: str) -> typing.Callable:
+            def make(tag: str, pyname: typing.Optional[str] = None) -> typing.Callable:
                 def sentinel(*a: typing.Any, **k: typing.Any) -> str:
                     return "SENTINEL-" + tag
 
+                if pyname:
+                    # a user following nunavut's own naming convention (filter_<name> / is_<name>)
+                    sentinel.__name__ = pyname
+                    sentinel.__qualname__ = pyname
                 return sentinel
 
-            s = make("%s-%s" % (kind, name)) if kind != "globals" else "SENTINEL-GLOBAL-%s" % name
+            conv = {"filters": "filter_%s", "tests": "is_%s"}.get(kind)
+            s = make("%s-%s" % (kind, name), conv % name if conv and plan.get("conventional_names") else None) if kind != "globals" else "SENTINEL-GLOBAL-%s" % name
             sentinels[(kind, name)] = s
             add_kw["additional_" + kind][name] = s
         gen2 = None
